@@ -524,7 +524,7 @@ _BINDING_CLS_MATRIX: dict[_Truth, type[AbstractBinding]] = {
         has_args=True,
         has_kwargs=False,
         has_pos_or_kwd=True,
-    ): PosArgsBinding,
+    ): PosKwdArgsBinding,
     _Truth(
         has_pos_only=False,
         has_kwd_only=False,
@@ -538,7 +538,7 @@ _BINDING_CLS_MATRIX: dict[_Truth, type[AbstractBinding]] = {
         has_args=True,
         has_kwargs=True,
         has_pos_or_kwd=True,
-    ): ArgsKwargsBinding,
+    ): AnyParamKindBinding,
     _Truth(
         has_pos_only=False,
         has_kwd_only=True,
@@ -580,7 +580,7 @@ _BINDING_CLS_MATRIX: dict[_Truth, type[AbstractBinding]] = {
         has_args=True,
         has_kwargs=False,
         has_pos_or_kwd=True,
-    ): PosOrKwdBinding,
+    ): PosKwdArgsBinding,
     _Truth(
         has_pos_only=False,
         has_kwd_only=True,
@@ -594,7 +594,7 @@ _BINDING_CLS_MATRIX: dict[_Truth, type[AbstractBinding]] = {
         has_args=True,
         has_kwargs=True,
         has_pos_or_kwd=True,
-    ): KwdArgsKwargsBinding,
+    ): AnyParamKindBinding,
     _Truth(
         has_pos_only=True,
         has_kwd_only=False,
@@ -622,7 +622,7 @@ _BINDING_CLS_MATRIX: dict[_Truth, type[AbstractBinding]] = {
         has_args=False,
         has_kwargs=True,
         has_pos_or_kwd=True,
-    ): PosKwargsBinding,
+    ): PosKwdKwargsBinding,
     _Truth(
         has_pos_only=True,
         has_kwd_only=False,
@@ -636,7 +636,7 @@ _BINDING_CLS_MATRIX: dict[_Truth, type[AbstractBinding]] = {
         has_args=True,
         has_kwargs=False,
         has_pos_or_kwd=True,
-    ): PosArgsBinding,
+    ): PosKwdArgsBinding,
     _Truth(
         has_pos_only=True,
         has_kwd_only=False,
@@ -671,7 +671,7 @@ _BINDING_CLS_MATRIX: dict[_Truth, type[AbstractBinding]] = {
         has_args=False,
         has_kwargs=True,
         has_pos_or_kwd=False,
-    ): PosArgsKwargsBinding,
+    ): PosKwdKwargsBinding,
     _Truth(
         has_pos_only=True,
         has_kwd_only=True,
